@@ -63,6 +63,8 @@ def run(ctx):
             if len(ks_) > 2:
                 pats.append(rng.sample(ks_, 2))
         pats += [[k for k in full if grade(k) in (1, 2)][:5]]
+        if d == 4:
+            pats += [[3, 12], [5, 10, 3]]          # non-simple bivectors: the wedge square does not vanish
         for kx in pats:
             vals = [Fraction(rng.randint(-4, 5) or 1, rng.choice([1, 2])) for _ in kx]
             x = MultiVector.fromkeysvalues(alg, tuple(kx), list(vals))
@@ -266,9 +268,42 @@ def run(ctx):
                 if nb <= 4:
                     ctx.mismatch('wedge-powers', case, got[:200], str(terms)[:200])
         ctx.count('driver-lines', len(lines)); ctx.count('driver-mismatches', nb)
+    inplace_pass(ctx, np)
     ctx.assumptions = ['the code computes in floating point (v / j in the outer series, **0.5, numpy/sympy transcendental functions): all '
                        'comparisons are to 1e-9 relative and are tests, the exact identities are theorems about the model',
                        'array-valued operands of exp() are outside its documented domain (float, int, complex, sympy); see known findings']
+
+
+def inplace_pass(ctx, np):
+    """array-valued multivectors whose entries are overwritten in place between calls: norm, normalized, sqrt, exp and the
+    outer series are recomputed from the current coefficients (norm^2 = normsq, |normalized|^2 = 1, ...)"""
+    from kingdon import MultiVector
+    rng = ctx.rng
+    nprng = np.random.RandomState(rng.randrange(2 ** 31))
+    for sig, gr in (([1, 1, 1], 1), ([0, 1, 1, 1], 2), ([1, 1, 1, 1], 2), ([1, -1, 1], 1)):
+        alg = make_algebra(sig)
+        ks = [k for k in alg.canon2bin.values() if grade(k) == gr]
+        x = MultiVector.fromkeysvalues(alg, tuple(ks), nprng.random_sample((len(ks), 4)) + 0.5)
+        for step in range(3):
+            case = {'sig': sig, 'grade': gr, 'step': step, 'scenario': 'in-place assignment between calls'}
+            ctx.case(case, tag='inplace')
+            try:
+                nsq, n, u = x.normsq(), x.norm(), x.normalized()
+                maxabs = lambda mv: max([float(np.max(np.abs(np.asarray(v, dtype=complex)))) for v in mv.values()] or [0.0])
+                e1 = maxabs(n * n - nsq)
+                e2 = maxabs(u.normsq() - 1)
+                fresh = MultiVector.fromkeysvalues(alg, tuple(ks), np.array(x.values()).copy())
+                e3 = maxabs(fresh.norm() - n)
+                e4 = maxabs(x.outerexp() - fresh.outerexp())
+            except Exception as e:
+                ctx.count('inplace-raises:' + type(e).__name__)
+                break
+            for nm, err in (('norm^2=normsq', e1), ('|normalized|^2=1', e2), ('norm=fresh norm', e3), ('outerexp=fresh outerexp', e4)):
+                if not (err < 1e-8):
+                    ctx.violation('stale-after-inplace', {**case, 'identity': nm}, 'error < 1e-8', float(err), key=f'inplace:{nm}')
+            # overwrite one entry in place
+            i = step % 4
+            x[i] = (3.0 + step) * x[(i + 1) % 4]
 
 
 def is_study_pattern(S, keys):
